@@ -2,17 +2,16 @@
 Props/C14 — YAML loading reproduces the value of every well-formed document.
 Property theorems only; lemmas live in Proof/YamlRoundTrip.lean.
 
-`render_load` (DESIGN §5): `∀ s, admissible s → loadRef (render s) = ok s.trees`.
-Proved here for EVERY admissible stream without anchors and aliases (`render_load_anchor_free`): the
-byte layer, layer 1 (flow collections + double-quoted scalars), layer 2 (block collections, nesting,
-compact forms, plain / single / double scalars and keys, every null / bool / int spelling), layer 3
-(literal and folded block scalars, chomping, indentation indicator, at any depth and at the root),
-layer 4 (comment lines, blank lines, trailing comments, before / inside / after documents), layer 5
-(LF / CRLF / CR) and layer 7 (`---` / `...`, several documents, root node on the marker line).
-Layer 6 (anchors / aliases) is `render_load_partial_anchors`: proved on an explicit finite family of
-streams (kernel evaluation of `loadRef ∘ render`); the universally quantified statement is the
-`Prop`-valued `render_load_full_statement`; for that layer the quantifier is covered by the
-correspondence check, which re-evaluates `loadRef (render s) = ok s.trees` on every generated stream.
+`render_load` (DESIGN §5): `∀ s, admissible s → loadRef (render s) = ok s.trees` — proved here for
+EVERY admissible stream (`render_load`): the byte layer, layer 1 (flow collections + double-quoted
+scalars), layer 2 (block collections, nesting, compact forms, plain / single / double scalars and
+keys, every null / bool / int spelling), layer 3 (literal and folded block scalars, chomping,
+indentation indicator, at any depth and at the root), layer 4 (comment lines, blank lines, trailing
+comments, before / inside / after documents), layer 5 (LF / CRLF / CR), layer 6 (anchors and
+aliases in flow and block context, re-definition, anchored collections and block scalars) and layer 7
+(`---` / `...`, several documents, root node on the marker line).  No layer is left to the
+correspondence check alone; the driver still re-evaluates `loadRef (render s) = ok s.trees` on every
+generated stream (a run-time re-check of the theorem's instance and of `admissible`).
 -/
 import SuccinctlyVerif.Proof.YamlRoundTrip
 import SuccinctlyVerif.Proof.YamlRefBlock
@@ -71,34 +70,39 @@ example : admissible (l1Stream exL1 0) = true := by decide +kernel
 example : (l1Stream exL1 0).chars = "{\"k\\\"\\n\": [ -12, ~, TRUE, \"\\xe9\\x09\\U0001f600\\\\\"], \"\":   {}}\n".toList := by
   decide +kernel
 
-/-! ## Every admissible stream without anchors and aliases -/
+/-! ## Every admissible stream -/
 
-/-- Layers 1–5 and 7, for ALL presentations: every admissible stream in which no node carries an
-anchor and no node is an alias loads back to its trees.  `admissible` is the specification's side
-condition (Spec/YamlRef.lean); the stream may consist of any number of documents, each with or without
-`---` / `...` (a bare document only first), with comment and blank lines anywhere `admissible` allows
-them, any nesting of block and flow collections with any indentation steps and compact forms, every
-scalar style including literal and folded block scalars (also as a document's root), trailing
-comments, and LF, CRLF or CR line breaks. -/
-theorem render_load_anchor_free (s : PStream) (ha : admissible s = true)
-    (hn : ∀ d ∈ s.docs, d.root.noAnchors = true) : loadRef (render s) = .ok s.trees := by
-  rw [render_load_bytes]; exact loadChars_admissible s ha hn
+/-- `render_load`, for ALL presentations: every admissible stream loads back to its trees.
+`admissible` is the specification's side condition (Spec/YamlRef.lean); the stream may consist of any
+number of documents, each with or without `---` / `...` (a bare document only first), with comment
+and blank lines anywhere `admissible` allows them, any nesting of block and flow collections with any
+indentation steps and compact forms, every scalar style including literal and folded block scalars
+(also as a document's root), trailing comments, anchors on any node that may carry one and aliases to
+anchors in scope (`PNode.scope`), and LF, CRLF or CR line breaks. -/
+theorem render_load (s : PStream) (ha : admissible s = true) : loadRef (render s) = .ok s.trees := by
+  rw [render_load_bytes]; exact loadChars_admissible s ha
 
-/-- The same for the proof-side predicate `docsOk2` (weaker than `admissible` on anchor-free streams:
-no bound on indentation steps, key lengths or integer ranges, duplicate keys allowed). -/
-theorem render_load_docs (s : PStream) (h : docsOk2 true s.docs = true) : loadRef (render s) = .ok s.trees := by
-  rw [render_load_bytes]; exact loadChars_docs s h
+/-- The full statement of DESIGN §5 holds. -/
+theorem render_load_full : render_load_full_statement := render_load
+
+/-- The same for the proof-side predicates `docsOk2` + anchor scoping (weaker than `admissible`: no
+bound on indentation steps, key lengths or integer ranges, duplicate keys allowed). -/
+theorem render_load_docs (s : PStream) (h : docsOk2 true s.docs = true)
+    (hsc : ∀ d ∈ s.docs, (d.root.scope []).isSome = true) : loadRef (render s) = .ok s.trees := by
+  rw [render_load_bytes]; exact loadChars_docs s h hsc
 
 /-- Layers 2–4 as a bare single document whose root satisfies `bl2` (kept as the statement the
 non-vacuity examples below refer to). -/
-theorem render_load_block (x : PNode) (g : Nat) (h : x.bl2 .root = true) (hb : bareOk x = true) :
+theorem render_load_block (x : PNode) (g : Nat) (h : x.bl2 .root = true) (hb : bareOk x = true)
+    (hs : (x.scope []).isSome = true) :
     loadRef (render (bareStream x g)) = .ok [x.tree] :=
-  render_load_docs (bareStream x g) (bareStream_ok x g h hb)
+  render_load_docs (bareStream x g) (bareStream_ok x g h hb) (bareStream_scope x g hs)
 
 /-- Layers 2–5: the same under LF, CRLF and CR line breaks. -/
-theorem render_load_block_breaks (x : PNode) (g : Nat) (b : Break) (h : x.bl2 .root = true) (hb : bareOk x = true) :
+theorem render_load_block_breaks (x : PNode) (g : Nat) (b : Break) (h : x.bl2 .root = true) (hb : bareOk x = true)
+    (hs : (x.scope []).isSome = true) :
     loadRef (render { bareStream x g with br := b }) = .ok [x.tree] :=
-  render_load_docs { bareStream x g with br := b } (bareStream_ok x g h hb)
+  render_load_docs { bareStream x g with br := b } (bareStream_ok x g h hb) (bareStream_scope x g hs)
 
 /-- Non-vacuity: nested, compact, step 0, all scalar kinds. -/
 def exL2 : PNode :=
@@ -111,7 +115,6 @@ def exL2 : PNode :=
 
 example : exL2.bl2 .root = true := by decide +kernel
 example : admissible (bareStream exL2 0) = true := by decide +kernel
-example : exL2.noAnchors = true := by decide +kernel
 
 /-- Non-vacuity for the block scalars of layer 3: keep / strip / clip, explicit indicator,
 deeper-indented and blank lines, a scalar followed by a sibling entry and one ending the document;
@@ -164,18 +167,10 @@ def exS7 : PStream :=
     br := .crlf }
 
 example : admissible exS7 = true := by decide +kernel
-example : ∀ d ∈ exS7.docs, d.root.noAnchors = true := by decide +kernel
 
-/-! ## Layer not yet proved for all streams
-
-The theorem below is the layer's statement restricted to an explicit finite family of streams
-(`Proof/YamlFamilies.lean`) that exhibits the layer's constructs; `loadsBack s` says
-`admissible s ∧ loadChars s.chars = ok s.trees` and is evaluated by the Lean kernel.  MISSING: the
-quantification over all admissible streams with anchors and aliases (`render_load_full_statement`
-restricted to streams in which `noAnchors` fails); that quantifier is covered only by the correspondence
-check, where the driver evaluates `loadRef (render s) = ok s.trees` for every generated stream. -/
-
-/-- Layer 6 (anchors and aliases) — finite family only. -/
-theorem render_load_partial_anchors : familyAnchors.all loadsBack = true := by decide +kernel
+/-- Non-vacuity for layer 6: the streams of `familyAnchors` (scalar and collection anchors,
+re-definition of an anchor name, aliases in flow and block context, an anchored block scalar) are
+admissible (and load back: an instance of `render_load`, also evaluated by the kernel). -/
+example : familyAnchors.all loadsBack = true := by decide +kernel
 
 end SV.Props.C14
